@@ -6,6 +6,9 @@ RESERVED_OK = None
 
 def name(n):
     import re
+    if '#' in n:        # alias#component inside a join body
+        a, b = n.split('#', 1)
+        return name(a) + '#' + name(b)
     if re.match(r'^[A-Za-z][A-Za-z0-9_.]*$', n) and n.lower() not in _KW:
         return n
     return "'" + n + "'"
@@ -151,7 +154,8 @@ def clause_body(t):
 
 
 def join(t):
-    ops = ', '.join(expr(o) + ((' as ' + name(a)) if a else '') for o, a in t['ops'])
+    # an operand without explicit alias is known by its dataset name (alias field = that name)
+    ops = ', '.join(expr(o['t']) + ((' as ' + name(o['a'])) if not (o['t'].get('k') == 'var' and o['t']['name'] == o['a']) else '') for o in t['ops'])
     s = '%s(%s' % (t['how'] + '_join', ops)
     if t.get('using'):
         s += ' using ' + ', '.join(name(u) for u in t['using'])
